@@ -181,6 +181,8 @@ type Env struct {
 	Users func(uid int) avfs.UserReader
 	// LastTemp is the name produced by the last successful CreateTemp / MkdirTemp.
 	LastTemp string
+	// ErrPaths adds the Path / Old / New fields of PathError and LinkError to the result data.
+	ErrPaths bool
 }
 
 // Result of an Op: error class and canonical data.
@@ -423,7 +425,22 @@ func offProbe(f avfs.File) string {
 func (e *Env) Exec(op Op) Result {
 	v := e.VFS
 
-	res := func(err error, data string) Result { return Result{Err: ErrClass(err), Data: data} }
+	res := func(err error, data string) Result {
+		if e.ErrPaths && err != nil {
+			var (
+				pe *fs.PathError
+				le *os.LinkError
+			)
+
+			if errors.As(err, &pe) {
+				data += " errpath=" + strconv.Quote(pe.Path)
+			} else if errors.As(err, &le) {
+				data += " errold=" + strconv.Quote(le.Old) + " errnew=" + strconv.Quote(le.New)
+			}
+		}
+
+		return Result{Err: ErrClass(err), Data: data}
+	}
 
 	switch op.K {
 	case "Mkdir":
